@@ -61,9 +61,29 @@ FileCases(tier) ==
       All    == SetToSeq({[cmds |-> c, files |-> f \o st, order |-> [j \in 1..Len(f) |-> f[j].name], mode |-> mo] :
                             c \in cmdls, f \in fsets, st \in stale, mo \in modes})
       keep   == IF tier = "quick" THEN 4 ELSE 1
-  IN [i \in 1..(Len(All) \div keep) |->
+      nA == Len(All) \div keep
+      \* directory arguments: a listed directory (searched again by the second command, which then also sees the
+      \* .vored files the first one created), alone and mixed with a plain file
+      dcmds  == {<<[kind |-> "replace", amt |-> [k |-> "all"], body |-> <<La>>, with |-> <<WStr(<<120, 121>>)>>]>>,
+                 <<[kind |-> "replace", amt |-> [k |-> "all"], body |-> <<La>>, with |-> <<WStr(<<>>)>>],
+                   [kind |-> "replace", amt |-> [k |-> "all"], body |-> <<Lb>>, with |-> <<WStr(<<ba, ba>>)>>]>>,
+                 <<[kind |-> "find", amt |-> [k |-> "all"], body |-> <<Cls("any")>>],
+                   [kind |-> "replace", amt |-> [k |-> "all"], body |-> <<Lab>>, with |-> <<WName("value"), WName("value")>>]>>,
+                 <<[kind |-> "replace", amt |-> [k |-> "all"], body |-> <<Lb>>, with |-> <<WStr(<<bc>>)>>],
+                   [kind |-> "find", amt |-> [k |-> "all"], body |-> <<Lit(<<bc>>)>>]>>}
+      dconts == {<<t, u>> : t \in {<<ba, bb>>, <<>>, <<bb, ba, ba>>}, u \in {<<ba>>, <<bb, bb, ba, bb>>}}
+      DAll   == SetToSeq({[cmds |-> c, ct |-> x, ord |-> o, mode |-> mo] :
+                            c \in dcmds, x \in dconts, o \in {<<"sub">>, <<"f.txt", "sub">>, <<"sub", "f.txt">>}, mo \in modes})
+  IN [i \in 1..nA |->
         LET a == All[i * keep]
         IN [id |-> i, defs |-> <<>>, trans |-> <<>>, cmds |-> a.cmds, files |-> a.files, order |-> a.order, mode |-> a.mode]]
+     \o [i \in 1..Len(DAll) |->
+        LET a == DAll[i]
+        IN [id |-> nA + i, defs |-> <<>>, trans |-> <<>>, cmds |-> a.cmds,
+            files |-> <<[name |-> "f.txt", bytes |-> <<ba, bb, ba>>], [d |-> "sub", name |-> "a.txt", bytes |-> a.ct[1]],
+                        [d |-> "sub", name |-> "b.txt", bytes |-> a.ct[2]]>>,
+            dirs |-> <<[d |-> "sub", names |-> <<"a.txt", "b.txt">>]>>,
+            order |-> a.ord, mode |-> a.mode]]
 
 ExprCases(tier) ==
   LET E == SetToSeq(C11_Exprs(tier))
@@ -145,6 +165,7 @@ CasesOf(fam, tier) ==
     [] fam = "C02"  -> BodySeqCases(C02_Bodies, tier)
     [] fam = "C03N" -> BodySeqCases(C03_NamedBodies, tier)
     [] fam = "C02N" -> BodySeqCases(C03_NamedBodies, tier)
+    [] fam = "C03W" -> BodySeqCases(C03_WholeBodies, tier)
     [] fam = "C04"  -> AmountCases(C04_BodiesQ, tier)
     [] fam = "C05"  -> ReplaceCases(tier) \o ReplaceAmountCases(tier)
     [] fam = "C06"  -> FileCases(tier)
